@@ -8,7 +8,8 @@ use std::collections::BTreeMap;
 use qbice_serialize::Plugin;
 use qbice_stable_type_id::Identifiable;
 use qbice_storage::{
-    kv_database::{DiscriminantEncoding, KvDatabase, WideColumn, WideColumnValue},
+    kv_database::{DiscriminantEncoding, KeyOfSetColumn, KvDatabase, WideColumn, WideColumnValue},
+    key_of_set_map::KeyOfSetMap as _,
     single_map::SingleMap as _,
     storage_engine::{StorageEngine as _, db_backed::{Configuration, DbBacked}},
 };
@@ -33,6 +34,82 @@ impl WideColumnValue<Col> for u64 { fn discriminant() -> u8 { 3 } }
 struct UnitCol;
 impl WideColumn for UnitCol { type Key = (); type Discriminant = (); fn discriminant_encoding() -> DiscriminantEncoding { DiscriminantEncoding::Prefixed } }
 impl WideColumnValue<UnitCol> for u64 { fn discriminant() {} }
+
+#[derive(Debug, Clone, Copy, PartialEq, Eq, PartialOrd, Ord, Hash, Identifiable)]
+#[stable_type_id_crate(qbice_stable_type_id)]
+struct SetCol;
+impl KeyOfSetColumn for SetCol { type Key = u8; type Element = u32; }
+/// a set whose element type has an EMPTY encoding (membership is one bit per key)
+#[derive(Debug, Clone, Copy, PartialEq, Eq, PartialOrd, Ord, Hash, Identifiable)]
+#[stable_type_id_crate(qbice_stable_type_id)]
+struct FlagCol;
+impl KeyOfSetColumn for FlagCol { type Key = u8; type Element = (); }
+type DSet<T> = std::sync::Arc<dashmap::DashSet<T>>;
+
+/// key-of-set columns behind the real write manager: members with ordinary and with empty encodings are inserted and removed
+/// in later lifetimes (each removal is delivered through the serialization-buffer path), then read from a reopened store
+fn run_sets<D: KvDatabase + Clone>(name: &str, open: &dyn Fn() -> D, seed: u64) -> u64 {
+    let rt = tokio::runtime::Builder::new_current_thread().build().unwrap();
+    let mut rng = Rng(seed ^ 0x5E75);
+    let mut model: BTreeMap<u8, std::collections::BTreeSet<u32>> = BTreeMap::new();
+    let mut flags: std::collections::BTreeSet<u8> = Default::default();
+    let mut history: Vec<String> = Vec::new();
+    let mut checks = 0u64;
+    // lifetime kinds: 0 mixed, 1 = set flags, 2 = ONLY clear one flag, 3 = ONLY remove one ordinary member
+    let plan: Vec<u64> = vec![1, 0, 2, 3, 0, 1, 2, 0, 3];
+    for (life, kind) in plan.iter().enumerate() {
+        {
+            let db = open();
+            let engine = DbBacked::new(db, Configuration::builder().serialization_workers(1 + (rng.next() % 3) as usize).build());
+            let manager = engine.new_write_manager();
+            let set = engine.new_key_of_set_map::<SetCol, DSet<u32>>();
+            let flag = engine.new_key_of_set_map::<FlagCol, DSet<()>>();
+            history.push(format!("[lifetime {life}]"));
+            let nb = if *kind == 0 { 1 + rng.next() % 3 } else { 1 };
+            let mut batches = vec![];
+            for _ in 0..nb {
+                let mut wb = manager.new_write_batch();
+                match kind {
+                    1 => { for k in 0..3u8 { rt.block_on(flag.insert(k, (), &mut wb)); flags.insert(k); } history.push("batch{set flags 0,1,2}".into()); }
+                    2 => { let k = (rng.next() % 3) as u8; rt.block_on(flag.remove(&k, &(), &mut wb)); flags.remove(&k); history.push(format!("batch{{clear flag {k}}}")); }
+                    3 => { let k = (rng.next() % 3) as u8; let e = (rng.next() % 4) as u32 * 1000; rt.block_on(set.remove(&k, &e, &mut wb)); if let Some(s) = model.get_mut(&k) { s.remove(&e); } history.push(format!("batch{{remove member {k}/{e}}}")); }
+                    _ => {
+                        let mut d = String::from("batch{");
+                        for _ in 0..(1 + rng.next() % 4) {
+                            let k = (rng.next() % 3) as u8; let e = (rng.next() % 4) as u32 * 1000;
+                            match rng.next() % 4 {
+                                0 => { rt.block_on(set.remove(&k, &e, &mut wb)); if let Some(s) = model.get_mut(&k) { s.remove(&e); } d.push_str(&format!("remove {k}/{e};")); }
+                                1 => { rt.block_on(flag.remove(&k, &(), &mut wb)); flags.remove(&k); d.push_str(&format!("clear flag {k};")); }
+                                2 => { rt.block_on(flag.insert(k, (), &mut wb)); flags.insert(k); d.push_str(&format!("set flag {k};")); }
+                                _ => { rt.block_on(set.insert(k, e, &mut wb)); model.entry(k).or_default().insert(e); d.push_str(&format!("insert {k}/{e};")); }
+                            }
+                        }
+                        d.push('}');
+                        history.push(d);
+                    }
+                }
+                batches.push(wb);
+            }
+            for wb in batches { manager.submit_write_batch(wb); }
+            drop(set); drop(flag);
+            drop(manager);
+            drop(engine);
+            history.push("drop manager; close store".into());
+        }
+        let db = open();
+        let hist = || history[history.len().saturating_sub(30)..].join("; ");
+        for k in 0..3u8 {
+            let got: std::collections::BTreeSet<u32> = db.scan_members::<SetCol>(&k).collect(); checks += 1;
+            let want = model.get(&k).cloned().unwrap_or_default();
+            if got != want { found(&format!("{name}: members of key {k} in the reopened store after the write manager was dropped"), &hist(), &format!("{got:?}"), &format!("{want:?}")); }
+            let got = db.scan_members::<FlagCol>(&k).count(); checks += 1;
+            let want = usize::from(flags.contains(&k));
+            if got != want { found(&format!("{name}: unit-element set of key {k} in the reopened store after the write manager was dropped"), &hist(), &format!("{got} member(s)"), &format!("{want} member(s)")); }
+        }
+        drop(db);
+    }
+    checks
+}
 
 fn run<D: KvDatabase + Clone>(name: &str, open: &dyn Fn() -> D, seed: u64) -> u64 {
     let rt = tokio::runtime::Builder::new_current_thread().build().unwrap();
@@ -125,11 +202,15 @@ fn main() {
         use qbice_storage::kv_database::rocksdb::RocksDB;
         let p = base.join("rocks");
         n += run("rocksdb", &|| RocksDB::open(&p, Plugin::default()).unwrap(), seed);
+        let p2 = base.join("rocks_sets");
+        n += run_sets("rocksdb", &|| RocksDB::open(&p2, Plugin::default()).unwrap(), seed);
     }
     {
         use qbice_storage::kv_database::fjall::Fjall;
         let p = base.join("fjall");
         n += run("fjall", &|| Fjall::open(&p, Plugin::default()).unwrap(), seed);
+        let p2 = base.join("fjall_sets");
+        n += run_sets("fjall", &|| Fjall::open(&p2, Plugin::default()).unwrap(), seed);
     }
     let _ = std::fs::remove_dir_all(&base);
     println!("{{\"found\": false, \"searched\": {n}}}");
